@@ -85,7 +85,7 @@ func buildSchemas(raw json.RawMessage) (*jsonschema.Schema, []*jsonschema.Schema
 				if err := json.Unmarshal(r, &xs); err != nil {
 					return nil, nil, err
 				}
-				sl := make([]*jsonschema.Schema, len(xs))
+				sl := make([]*jsonschema.Schema, len(xs), len(xs)+2) // spare capacity: an append does not reallocate
 				for k, x := range xs {
 					p, err := ptr(x)
 					if err != nil {
